@@ -69,8 +69,16 @@ def gen_member_text(rng, ident, decoy=None):
 def gen_members(rng, tag):
     k = rng.randint(1, 5)
     idents = []
+    digits = rng.random() < 0.2  # identities that look like positions: "0", "1", ... placed at other positions
+    perm = list(range(k + 1))
+    rng.shuffle(perm)
     for j in range(k):
-        idents.append(None if rng.random() < 0.25 else f"{tag}m{j}{rng.choice(['', 'x', '7'])}")
+        if rng.random() < 0.25:
+            idents.append(None)
+        elif digits:
+            idents.append(str(perm[j]))
+        else:
+            idents.append(f"{tag}m{j}{rng.choice(['', 'x', '7'])}")
     out = []
     named = [i for i in idents if i is not None]
     for j, ident in enumerate(idents):
